@@ -9,8 +9,10 @@ COQ = os.path.join(ROOT, "coq")
 WORK = os.path.join(ROOT, "work")
 HARNESS = os.path.join(ROOT, "harness")
 GUARD = "essential_base_verif"
-MAX_BATCH = 8000      # cases per engine invocation (16 shards of at most 500: limit-sized stacks and memories make some literals large)
+MAX_BATCH = 3200      # cases per engine invocation (16 shards of at most 200: limit-sized stacks and memories make some literals large,
+                      # and coqc's memory grows with the size of a shard)
 JOBS = int(os.environ.get("VERIF_JOBS", "16"))
+SHARD_JOBS = 12       # coqc processes evaluating shards at a time (a shard of limit-sized cases can take 2-3 GB)
 
 import gen_optable, gen_consts
 import props as P
@@ -188,9 +190,11 @@ def parse_evals(out):
 
 def run_coq_shards(meta):
     def one(path):
-        rc, out = sh(["coqc", "-noglob", "-Q", os.path.join(COQ, "theories"), "EB", path], timeout=1800)
+        # a tighter major-heap policy keeps a shard's peak memory down (cases with limit-sized stacks and memories)
+        rc, out = sh(["coqc", "-noglob", "-Q", os.path.join(COQ, "theories"), "EB", path], timeout=1800,
+                     env={"OCAMLRUNPARAM": "o=40"})
         return path, rc, out
-    with ThreadPoolExecutor(max_workers=JOBS) as ex:
+    with ThreadPoolExecutor(max_workers=min(JOBS, SHARD_JOBS)) as ex:
         results = list(ex.map(one, meta["shards"]))
     evnames = [e for e in meta["evals"] if e != "show_models"]
     meta["evals"] = evnames
@@ -340,6 +344,8 @@ def check_property(pid, tier, seed, replay=None):
           nb = 1 if only is not None else max(1, -(-total // MAX_BATCH))
           for b in range(nb):
             es = es0 if nb == 1 else dict(es0, quick=-(-total // nb) // mult, thorough=-(-total // nb) // mult)
+            if b > 0:      # the fixed regression cases run in the first batch only
+                es = dict(es, args=list(es.get("args", [])) + ["--no-corpus"])
             bseed = rseed + 7919 * b
             d = os.path.join(outdir, "%s_%s%s" % (es.get("name", es["engine"]), tag, "" if nb == 1 else "_b%d" % b))
             meta, out = run_engine(es, bseed, tier, d, only=only, count_mult=mult)
